@@ -447,6 +447,41 @@ def prove_connection(src_root, ex: Explorer):
         ctx.prove(f'C01.conn.decode_message_data[{tag}]', ok, 'deserialize_message must receive the de-obfuscated frame')
     ex.run(path, 'connection')
 
+    def ser(ctx: Ctx):
+        """serialize_message: a message object goes on the wire as ITS OWN serialize() (the per-class wire form, which for the three
+        compressed replies is the zlib form - C01.<Class>.layout / roundtrip are stated for exactly that method); bytes pass unchanged"""
+        it = mk_interp(src_root, ctx)
+        from contracts.common import new as new_
+        from pyvc.rope import rope_equal
+        conn = new_(it, CONN, 'PeerConnection')
+        conn.attrs.update(hostname='h', port=1, obfuscated=False)
+        which = ['PeerSharesReply.Request', 'Ping.Request'][ctx.choose(2, 'class')]
+        msg = new_(it, 'protocol.messages', which)
+        wire = Rope([Blob(('serialize()', which), z3.Int('wlen'))])
+        ctx.assume(z3.Int('wlen') >= 8)
+        calls = []
+
+        def generic(it2, func, args, kwargs):
+            calls.append((func.node.name, args[1:], dict(kwargs)))
+            if func.node.name == 'serialize_into':
+                return None
+            return wire
+        for m, q, n in it.source.functions():
+            if '.protocol.' in m.name + '.' and n.name in ('serialize', 'serialize_into') and (q.startswith(which + '.') or q.startswith('MessageDataclass.') or q.startswith('ProtocolDataclass.')):
+                it.hooks[f'{m.name.split("aioslsk.", 1)[-1]}:{q}'] = generic
+        try:
+            out = it.call(it.getattr(conn, 'serialize_message'), [msg], {})
+        except PyRaise as pr:
+            ctx.fail(f'C01.conn.serialize_message[{which}]', repr(pr.exc))
+            return
+        first = calls[0] if calls else None
+        ctx.prove(f'C01.conn.serialize_message[{which}]', out is wire and first is not None and first[0] == 'serialize' and first[1] == [] and not first[2],
+                  f'the connection must send message.serialize() with the class defaults (compression), got calls {calls!r}')
+        raw = Rope([Blob(('raw', 'B'), z3.Int('rlen'))])
+        out2 = it.call(it.getattr(conn, 'serialize_message'), [raw], {})
+        ctx.prove('C01.conn.serialize_message[bytes]', out2 is raw or rope_equal(ctx, N.to_rope(it, out2), raw)[0], 'bytes must be sent unchanged')
+    ex.run(ser, 'serialize_message')
+
 
 def prove(src_root, ex: Explorer, res, part=None):
     if part in (None, 'rotate_key'):
